@@ -1,6 +1,8 @@
 //! # Null-terminated transparent C-strings.
 
 use std::prelude::v1::*;
+#[cfg(kani)]
+use core::{assert, unreachable};
 use std::ptr::NonNull;
 use std::slice::*;
 use std::str::from_utf8_unchecked;
@@ -244,4 +246,9 @@ impl<'a> serde::Serialize for ReprCStr<'a> {
     {
         serializer.serialize_str(self.as_ref())
     }
+}
+
+#[cfg(kani)]
+mod verif_kani {
+    include!(concat!(env!("H33P_CGLUE_VERIF_DIR"), "/repr_cstring.rs"));
 }
